@@ -161,7 +161,7 @@ Proof. split; vm_compute; reflexivity. Qed.
    want_ by AddTarget and was not on dyndep_walk; when all its inputs were ready nobody called
    EdgeMaybeReady for it and Build() ended with "stuck [this is a bug]", exit status 0.  [accepts_old] /
    [step_res_old] = the same model with [apply_load_old] (the guard "every edge that became ready is
-   visited" not enforced); the witness is [vs_graph] of PlanDefs.v. ---- *)
+   visited" not enforced) and the stuck exit status of that time (exit_code_, i.e. 0); the witness is [vs_graph] of PlanDefs.v. ---- *)
 Definition C06_never_stuck_old : Prop :=
   forall g cfg loads rank, wf_graph g rank -> 0 < c_k cfg -> 0 < c_j cfg ->
   forall prio sn evs s code, wf_snap g sn ->
